@@ -22,6 +22,17 @@ type SingleCfg struct {
 
 // DrawShapeN draws a shape of rank minRank..maxRank with dims 1..maxDim and <= maxElems elements.
 func DrawShapeN(t *rapid.T, minRank, maxRank, maxDim, maxElems int, distinct bool) []int {
+	// a tenth of the shapes may have long dimensions (up to 40) and up to 4x the elements:
+	// carries past small sizes, thresholds of size-dependent code paths
+	if maxElems >= 250 && rapid.IntRange(0, 9).Draw(t, "bigshape") == 0 {
+		maxDim, maxElems = 40, maxElems*4
+		if maxRank > 3 {
+			maxRank = 3
+		}
+		if minRank > maxRank {
+			maxRank = minRank
+		}
+	}
 	rank := rapid.IntRange(minRank, maxRank).Draw(t, "rank")
 	s := make([]int, rank)
 	n := 1
@@ -329,6 +340,7 @@ func GenSingle(t *rapid.T, op string, cfg SingleCfg) Program {
 	default:
 		panic("GenSingle: op " + op)
 	}
+	n.Twice = rapid.IntRange(0, 5).Draw(t, "twice") == 0
 	s.p.Nodes = []Node{n}
 	return s.p
 }
